@@ -117,6 +117,14 @@ func (x *Exec) staticCall(fr *Frame, st *State, in ssa.Instruction, fn *ssa.Func
 		x.callByContract(fr, st, in, fn, ct, nil, args, site, k)
 		return
 	}
+	if fn.Synthetic != "" && len(fn.Blocks) > 0 && !x.onStack(fr, fn) && (strings.HasPrefix(fn.Synthetic, "wrapper") || strings.HasPrefix(fn.Synthetic, "bound") || strings.HasPrefix(fn.Synthetic, "thunk") || strings.HasPrefix(fn.Synthetic, "instan")) {
+		// compiler-generated wrapper (promoted method, bound method, instantiation): always entered
+		nf := x.newFrame(fn, fr)
+		nf.depth = fr.depth // wrappers do not count towards the inlining depth
+		x.bindParams(st, fn, args)
+		x.runBody(nf, st, k)
+		return
+	}
 	if x.prog.moduleFunc(fn) && len(fn.Blocks) > 0 && fr.depth < maxInlineDepth && !x.onStack(fr, fn) && x.inlinable(fn) {
 		x.inlineCall(fr, st, in, fn, args, nil, k)
 		return
@@ -589,6 +597,7 @@ func (x *Exec) callByContract(fr *Frame, st *State, in ssa.Instruction, fn *ssa.
 		}
 		x.atCallAsserts(fr, st, in, site, callee0, evRecv0, evArgs0)
 	}
+	havockedBefore := st.havocked
 	snapshot := make(map[string]Term, len(st.heap))
 	for k2, v := range st.heap {
 		snapshot[k2] = v
@@ -625,6 +634,7 @@ func (x *Exec) callByContract(fr *Frame, st *State, in ssa.Instruction, fn *ssa.
 	}
 	bindResults(post, sig, ct, res)
 	post.old = &SpecEnv{x: x, st: st.viewWithHeap(snapshot), vars: post.vars, pkg: env.pkg, lets: ct.Lets}
+	post.old.st.havocked = havockedBefore
 	for _, cl := range ct.Ensures {
 		if traceRe.MatchString(cl.Text) {
 			continue // clauses about the callee's own call trace say nothing about the caller's state
@@ -1038,8 +1048,10 @@ func (x *Exec) locksBalanced(fr *Frame, st *State) {
 		seen[key] = true
 		w := st.hget("L."+l.arr+".w", SArr(SRef, SBool))
 		r := st.hget("L."+l.arr+".r", SArr(SRef, SInt))
+		w0 := st.initHeap("L."+l.arr+".w", SArr(SRef, SBool))
+		r0 := st.initHeap("L."+l.arr+".r", SArr(SRef, SInt))
 		o := x.newObl(fr.fn, "lock-balance", l.desc, []string{"C07"}, "")
-		st.check(o, And(Not(Select(w, l.owner)), Eq(Select(r, l.owner), IntLit(0))))
+		st.check(o, And(Eq(Select(w, l.owner), Select(w0, l.owner)), Eq(Select(r, l.owner), Select(r0, l.owner))))
 	}
 }
 
